@@ -486,6 +486,25 @@ theorem OTO.ofPairs_of_wf {s : OTO α} (h : s.WF) : OTO.ofPairs s.fwd = ⟨s.fwd
 
 /-! register file -/
 
+/-- a bijection given by its item list (distinct keys, distinct values) with the swapped list as inverse -/
+theorem OTO.WF.ofBijection (l : List (α × α)) (hk : (l.map Prod.fst).Nodup) (hv : (l.map Prod.snd).Nodup) :
+    (⟨l, l.map swap⟩ : OTO α).WF := by
+  have hi : NodupKeys (l.map swap) := by
+    unfold NodupKeys keys
+    rw [List.map_map]
+    exact hv
+  refine ⟨hk, hi, fun k v => ?_⟩
+  show lookup k l = some v ↔ lookup v (l.map swap) = some k
+  rw [← mem_iff_lookup l hk, ← mem_iff_lookup _ hi, mem_map_swap]
+
+theorem OTO.WF.ofPairsAs (ps hint : List (α × α)) : (OTO.ofPairsAs ps hint).WF := by
+  unfold OTO.ofPairsAs
+  split
+  · next h =>
+    simp only [OTO.admissible, Bool.and_eq_true, decide_eq_true_eq] at h
+    exact OTO.WF.ofBijection hint h.1.1.1 h.1.1.2
+  · exact OTO.WF.ofPairs ps
+
 def AllWF (regs : List (OTO α)) : Prop := ∀ s ∈ regs, s.WF
 
 theorem AllWF.append {regs : List (OTO α)} (h : AllWF regs) {s : OTO α} (hs : s.WF) : AllWF (regs ++ [s]) := by
@@ -513,6 +532,11 @@ theorem otoCmd_wf {regs regs' : List (OTO α)} {c : OtoCmd α} {ret : Ret α}
     obtain ⟨ps, _, he⟩ := hc
     injection he with he _; subst he
     exact h.append (OTO.WF.ofPairs ps)
+  | newAs src hint =>
+    simp only [otoCmd, Option.map_eq_some_iff] at hc
+    obtain ⟨ps, _, he⟩ := hc
+    injection he with he _; subst he
+    exact h.append (OTO.WF.ofPairsAs ps hint)
   | unique src =>
     simp only [otoCmd, Option.map_eq_some_iff] at hc
     obtain ⟨ps, _, he⟩ := hc
@@ -559,6 +583,11 @@ theorem otoCmd_isolated {regs regs' : List (OTO α)} {c : OtoCmd α} {ret : Ret 
     regs'[j]? = regs[j]? := by
   cases c with
   | new src =>
+    simp only [otoCmd, Option.map_eq_some_iff] at hc
+    obtain ⟨ps, _, he⟩ := hc
+    injection he with he _; subst he
+    simp [List.getElem?_append, hj]
+  | newAs src hint =>
     simp only [otoCmd, Option.map_eq_some_iff] at hc
     obtain ⟨ps, _, he⟩ := hc
     injection he with he _; subst he
